@@ -80,7 +80,7 @@ theorem consensus_roundtrip (a : Address) (rest : Bytes) (hw : WF vk a) (hH : âˆ
     exact fromBytes_blob H vk a.net a.kind a.spend a.view a.pid hs hv hvs hvv hp hH
   unfold consensusDecode consensusEncode
   rw [bind_eq (complete_vec sizes.u8 (fun _ => True) (fun b => [b]) u8 complete_u8 (asBytes H a) rest
-    (fun _ _ => trivial) (by simp only [sizes, CAP, Gen.CAP]; omega) (by omega))]
+    (fun _ _ => trivial) (by simp only [sizes, Gen.sizes, CAP, Gen.CAP]; omega) (by omega))]
   simp only [hrt]
 
 /-- an accepted consensus encoding is the canonical one -/
